@@ -38,25 +38,25 @@ def main(argv):
         env = dict(os.environ)
         env["PYTHONPATH"] = wt
         env.pop("VERIF_REPO", None)
-        shutil.copy(os.path.join(cand, "demo.py"), os.path.join(wt, "_demo.py"))
-        code, log = sh(["/venv/bin/python", "_demo.py"], cwd=wt, env=env, timeout=600)
+        shutil.copy(os.path.join(cand, "demo.py"), os.path.join(wt, "demo.py"))
+        code, log = sh(["/venv/bin/python", "demo.py"], cwd=wt, env=env, timeout=600)
         out["demo_without_change_exit"] = code
         code, log = sh(["git", "apply", os.path.join(cand, "patch.diff")], cwd=wt)
         out["patch_applies"] = code == 0
         if code != 0:
             out["apply_log"] = log[-500:]
             return out
-        code, log = sh(["/venv/bin/python", "_demo.py"], cwd=wt, env=env, timeout=600)
+        code, log = sh(["/venv/bin/python", "demo.py"], cwd=wt, env=env, timeout=600)
         out["demo_with_change_exit"] = code
         out["demo_tail"] = log[-600:]
         code, log = sh("/venv/bin/python -m pytest -ra -q -p no:cacheprovider --timeout=900 "
-                       "--continue-on-collection-errors --deselect _demo.py 2>&1 | tail -1", cwd=wt, env=env)
+                       "--continue-on-collection-errors --deselect demo.py 2>&1 | tail -1", cwd=wt, env=env)
         out["suite_with_change"] = log.strip()
         out["suite_ok"] = bool(re.search(r"\b85 passed\b", log)) and bool(re.search(r"\b2 failed\b", log))
         out["confirmed"] = (out["suite_ok"] and out["demo_without_change_exit"] == 0
                             and out["demo_with_change_exit"] not in (0, None))
         if do_check:
-            os.unlink(os.path.join(wt, "_demo.py"))
+            os.unlink(os.path.join(wt, "demo.py"))
             for p in [prop] + extra_props:
                 env2 = dict(os.environ)
                 env2["VERIF_REPO"] = wt
